@@ -87,6 +87,12 @@ def geomOps (w : List String) : Option String :=
     match parseRuns rs with
     | some rs => some ("ok " ++ showHex (marshal rs))
     | none => some "bad-op"
+  | ["rle.read", h] =>
+    match ofHex h with
+    | some b => match readRLEs b with
+      | some rs => some ("ok " ++ showRuns rs)
+      | none => some "err"
+    | none => some "bad-op"
   | ["rle.unmarshal", h] =>
     match ofHex h with
     | some b => match unmarshal b with
